@@ -19,6 +19,7 @@ AGREE = ["agree_native_events", "agree_native_outcome", "agree_native_recorder",
 def reader_jobs(ck):
     r = ck.rng
     jobs = [{"id": i, "seed": r.randrange(1 << 30), "model": {"c08": n}} for i, n in enumerate(C08_EXTRAS)]
+    jobs.append({"id": len(jobs), "seed": 0, "model": {"chunk": True}, "pads": [100, 16350, 16360, 16370, 16376, 32750, 70000]})
     for name in ("wildtail", "anytype", "union", "wrappers", "poly"):
         jobs.append({"id": len(jobs), "seed": r.randrange(1 << 30), "model": {"extra": name}, "n_docs": 3})
     for _ in range(ck.n(36, 400)):
@@ -57,6 +58,14 @@ def reader_correspondence(ck, fut):
         if j.get("crashed"):
             ck.failure("harness-driver-crashed", f"impl_c08.py crashed on {j['model']} seed {j['seed']}: {j['crashed'][-400:]}",
                        {"job": {"seed": j["seed"], "model": j["model"]}})
+            continue
+        for ch in j.get("chunk", []):
+            stats.setdefault("chunk_boundary", []).append({"pad": ch["pad"], "equal": ch["equal"], "complete": ch["complete"]})
+            if not ch["equal"]:
+                ck.failure("handlers-differ-tail-chunk-boundary",
+                           f"<M>{'x' * 3}...({ch['pad']} chars)<b/>TAIL...</M>: native {ch['native']} vs lxml {ch['lxml']}",
+                           {"pad": ch["pad"], "native": ch["native"], "lxml": ch["lxml"]})
+        if "chunk" in j:
             continue
         if j.get("skipped") or not j.get("universe") or not j.get("conv"):
             stats["skipped_jobs"] += 1
